@@ -121,6 +121,11 @@ C["C09"] = ("Coq theorems over a model of the listener's life (Serve goroutine s
             "succeeds while draining; the code as it was is refuted (Stop during bind retry / before Serve runs waits for ever), repaired by fix commits together with two Redis-side "
             "hangs (silent backend). Tie: lifecycle scenarios and random stop points on both processors vs the extracted model's predictions.",
             "Backends closed and goroutine count observed, not modelled; connection limit via C20.", "DESIGN.md §4 C09")
+C["C05"] = ("Coq theorems over a model of one direction of the relay (source sends and half-closes, copy rounds whose reads return ANY number of bytes up to the buffer): at every moment "
+            "delivered ++ unread = sent (nothing added, dropped, duplicated, reordered), end-of-stream is delivered only when everything has been, each round makes progress, the end "
+            "follows once the source has finished; the two directions share no state. Tie: byte streams of many sizes, chunkings and half-close orders through the real TCP processor "
+            "between a scripted client and backend vs the extracted model (length, checksum, end-of-stream, upstream counters).",
+            "Read sizes of the proxy not observable (the theorem covers all); idle timeout and resets not exercised.", "DESIGN.md §4 C05")
 checks = []
 for pid in sorted(C):
     text, note, ref = C[pid]
